@@ -150,9 +150,88 @@ def _int_guard_semantics(expr: ast.AST, reject_label: str, subject: str) -> Opti
     return {k for k in range(0, 7) if f(k) == (reject_label == "T")}
 
 
+def _degrees(e: ast.AST, vecs: Tuple[str, ...]):
+    """homogeneity degree of an expression in the vectors `vecs` (tuple of ints), 'zero' for an exact zero / the
+    tolerance (an absolute quantity), 'bool0' for a scale-invariant predicate, None when outside the fragment"""
+    Z = tuple(0 for _ in vecs)
+
+    def add(a, b):
+        return tuple(x + y for x, y in zip(a, b))
+
+    if isinstance(e, ast.Name):
+        if e.id in vecs:
+            return tuple(1 if v == e.id else 0 for v in vecs)
+        return None
+    if isinstance(e, ast.Constant) and isinstance(e.value, (int, float)) and not isinstance(e.value, bool):
+        return "zero" if e.value == 0 else Z
+    if isinstance(e, ast.UnaryOp) and isinstance(e.op, (ast.USub, ast.UAdd)):
+        return _degrees(e.operand, vecs)
+    if isinstance(e, ast.Call):
+        f = e.func
+        name = f.id if isinstance(f, ast.Name) else (f.attr if isinstance(f, ast.Attribute) else None)
+        if name == "get_eps" and not e.args:
+            return "zero"  # an absolute tolerance
+        if name == "zero" and not e.args:
+            return "zero"
+        if name == "abs" and isinstance(f, ast.Name) and len(e.args) == 1:
+            return _degrees(e.args[0], vecs)
+        if isinstance(f, ast.Attribute):
+            r = _degrees(f.value, vecs)
+            if name in ("normalized", "unit") and not e.args:
+                return Z if isinstance(r, tuple) else None
+            if name == "length" and not e.args:
+                return r if isinstance(r, tuple) else None
+            if name in ("cross",) and len(e.args) == 1:
+                a = _degrees(e.args[0], vecs)
+                return add(r, a) if isinstance(r, tuple) and isinstance(a, tuple) else None
+            if name in ("parallel", "orthogonal", "angle") and len(e.args) == 1:
+                a = _degrees(e.args[0], vecs)
+                return "bool0" if isinstance(r, tuple) and isinstance(a, tuple) else None
+        if isinstance(f, ast.Name) and name in ("parallel", "orthogonal", "angle") and len(e.args) == 2:
+            a, b = _degrees(e.args[0], vecs), _degrees(e.args[1], vecs)
+            return "bool0" if isinstance(a, tuple) and isinstance(b, tuple) else None
+        return None
+    if isinstance(e, ast.BinOp):
+        l, r = _degrees(e.left, vecs), _degrees(e.right, vecs)
+        if isinstance(e.op, ast.Mult):
+            if l == "zero" or r == "zero":
+                other = r if l == "zero" else l
+                return other if isinstance(other, tuple) else ("zero" if other == "zero" else None)  # eps * |v1| * |v2|: degree of the rest
+            return add(l, r) if isinstance(l, tuple) and isinstance(r, tuple) else None
+        if isinstance(e.op, ast.Div):
+            if isinstance(l, tuple) and isinstance(r, tuple):
+                return tuple(x - y for x, y in zip(l, r))
+            return None
+        if isinstance(e.op, (ast.Add, ast.Sub)):
+            if isinstance(l, tuple) and l == r:
+                return l
+            return None
+        if isinstance(e.op, ast.Pow) and isinstance(e.right, ast.Constant) and isinstance(e.right.value, (int, float)) and isinstance(l, tuple):
+            k = e.right.value
+            return tuple(x * k for x in l)
+    return None
+
+
+def scale_dependent_compare(fi: FunctionInfo, cond: ast.AST, vecs: Tuple[str, ...]):
+    """-> (compare node, degree) if `cond` (locals expanded) decides by comparing a quantity of non-zero degree in the
+    edge vectors with an absolute quantity (zero within the tolerance): the verdict changes when the vectors are
+    rescaled, so it is not a test of their *directions*"""
+    from ..astutil import expand_locals
+    e = expand_locals(fi.node, cond, fi.params)
+    for c in ast.walk(e):
+        if not (isinstance(c, ast.Compare) and len(c.ops) == 1):
+            continue
+        l, r = _degrees(c.left, vecs), _degrees(c.comparators[0], vecs)
+        for a, b in ((l, r), (r, l)):
+            if isinstance(a, tuple) and all(x > 0 for x in a) and b == "zero":
+                return c, a
+    return None
+
+
 class GuardOb:
     def __init__(self, fn, label, wording, inputs_any=(), inputs_all=(), eps=False, loop=False, iterates=None,
-                 min_accept=None, subject=None, module=None, container_type=None):
+                 min_accept=None, subject=None, module=None, container_type=None, direction_pair=None):
+        self.direction_pair = direction_pair  # the guard is a statement about the *directions* of these two vectors
         self.container_type = container_type  # the guard is a membership test in a value of this class
         self.fn = fn
         self.label = label
@@ -186,6 +265,15 @@ def check_guard(ctx, res, ob: GuardOb, rule="R15.1", prop_res=None) -> bool:
         if ob.eps and not any(eps_aware(ctx, fi, x) for x in visited):
             rejected_detail.append("`%s`: evaluation never reads get_eps()" % txt(e)[:50])
             continue
+        if ob.direction_pair is not None:
+            sd = None
+            for x in visited:
+                sd = sd or scale_dependent_compare(fi, x, tuple(ob.direction_pair))
+            if sd is not None:
+                rejected_detail.append("`%s`: compares `%s`, which scales with the lengths of %s (degree %s), with an absolute "
+                                       "tolerance: short independent vectors are rejected and long nearly parallel ones accepted" % (
+                                           txt(e)[:50], txt(sd[0])[:50], " and ".join(ob.direction_pair), sd[1]))
+                continue
         if ob.container_type is not None:
             okc = False
             seen_t = set()
@@ -312,13 +400,13 @@ EXPLICIT = [
             "a polygon with non-coplanar vertices must be rejected", inputs_all={"point", "self.plane"},
             eps=True, loop=True, iterates={"self.points"}, container_type="Plane"),
     GuardOb("ConvexPolygon.Parallelogram", "dependent edge vectors", "a parallelogram with dependent edge vectors must be rejected",
-            inputs_all={"v1", "v2"}, eps=True),
+            inputs_all={"v1", "v2"}, eps=True, direction_pair=("v1", "v2")),
     GuardOb("ConvexPolyhedron.Parallelepiped", "dependent v1, v2", "a parallelepiped with dependent edge vectors must be rejected",
-            inputs_all={"v1", "v2"}, eps=True),
+            inputs_all={"v1", "v2"}, eps=True, direction_pair=("v1", "v2")),
     GuardOb("ConvexPolyhedron.Parallelepiped", "dependent v1, v3", "a parallelepiped with dependent edge vectors must be rejected",
-            inputs_all={"v1", "v3"}, eps=True),
+            inputs_all={"v1", "v3"}, eps=True, direction_pair=("v1", "v3")),
     GuardOb("ConvexPolyhedron.Parallelepiped", "dependent v2, v3", "a parallelepiped with dependent edge vectors must be rejected",
-            inputs_all={"v2", "v3"}, eps=True),
+            inputs_all={"v2", "v3"}, eps=True, direction_pair=("v2", "v3")),
     GuardOb("Pyramid.__init__", "apex in base plane", "a pyramid whose apex lies in its base plane must be rejected",
             inputs_all={"p", "cp"}, eps=True, container_type="Plane"),
     GuardOb("ConvexPolyhedron.__init__", "outward normals", "a face set that is not a closed convex polyhedron must be rejected (normal check)",
